@@ -285,7 +285,8 @@ def build_engine(contract, all_contracts, timeout_ms=10000, mutate=None):
     if node is None:
         raise EngineError('anchor not found: %s in %s' % (contract.qualname, contract.file))
     for c in all_contracts:
-        if c is not contract and c.file == contract.file and c.modular:
+        # a recursive function's own calls go through its own contract (partial correctness: termination is not shown)
+        if (c is not contract or getattr(contract, 'recursive', False)) and c.file == contract.file and c.modular:
             eng.contracts[c.qualname] = c
     return eng, menv, node, src
 
@@ -393,6 +394,8 @@ def verify(contract, all_contracts=(), timeout_ms=10000, mutate=None, negate_pos
                     eng.oblige(eng._b(eng.spec_truth(c, env)), 'raises:%s:%d' % (name, k), ex.line)
                 return
             res.reached_post += 1
+            if contract.result_ty is not None and isinstance(result, Box) and result.ty is None and result.cd is None:
+                result.set_type(contract.result_ty)          # an empty literal returned where the contract declares the type
             # a function that may raise E only under cond: normal return implies not cond is NOT implied;
             # contracts state that separately in ensures when wanted.
             if negate_post is not None:
